@@ -25,7 +25,9 @@ Record obs_case := mkCase {
   oc_dur : list (string * option Z);                      (* time.ParseDuration *)
   (* what the implementation answered: member ids with offsets / error class; policy *)
   oc_impl : result (list (N * Z));
-  oc_impl_policy : result (policy_kind * Z)
+  oc_impl_policy : result (policy_kind * Z);
+  (* for a fixed policy on a successfully built group: what DialerGroup.Select returned (member id) *)
+  oc_impl_fixed : option (result N)
 }.
 
 Definition c_re_ok (c : obs_case) (p : string) : bool :=
@@ -66,7 +68,7 @@ Definition err_code (e : err) : N :=
   match e with
   | EBadRegex => 1 | EUnknownKey => 2 | EUnknownInput => 3 | EAnnoFormat => 4 | EAnnoKey => 5
   | ELenMismatch => 6 | EPolType => 7 | EPolCount => 8 | EPolNot => 9 | EPolFormat => 10
-  | EPolAtoi => 11 | EPolUnknown => 12
+  | EPolAtoi => 11 | EPolUnknown => 12 | ESelEmpty => 13 | ESelRange => 14
   end%N.
 
 Definition group_result_eqb (a b : result (list (N * Z))) : bool :=
@@ -108,9 +110,37 @@ Definition model_group (c : obs_case) : result (list (N * Z)) :=
   | Err e => Err e
   end.
 
+Definition optres_eqb (a b : option (result N)) : bool :=
+  match a, b with
+  | None, None => true
+  | Some (Ok x), Some (Ok y) => N.eqb x y
+  | Some (Err e1), Some (Err e2) => N.eqb (err_code e1) (err_code e2)
+  | _, _ => false
+  end.
+
+Definition model_fixed (c : obs_case) : option (result N) :=
+  match model_group c, new_policy (oc_policy c) with
+  | Ok g, Ok (PFixed, i) => Some (match select_fixed g i with Ok d => Ok (fst d) | Err e => Err e end)
+  | _, _ => None
+  end.
+
+(* what the spec says about the observed selection: only defined when the group exists (the
+   implementation's group answer is checked separately, code 2) *)
+Definition spec_fixed_allows_b (c : obs_case) : bool :=
+  let g := proj (spec_group (c_re_ok c) (c_re_match c) (c_dur c) rd_lo_p rd_lo_f rd_lo_a (oc_pool c) (oc_lines c) (oc_annos c)) in
+  match oc_impl c, spec_policy_raw (oc_policy c), oc_impl_fixed c with
+  | Ok _, Some (PFixed, i), Some (Ok x) =>
+      match fixed_choice g i with Some d => N.eqb (fst d) x | None => false end
+  | Ok _, Some (PFixed, i), Some (Err _) =>
+      match fixed_choice g i with Some _ => false | None => true end
+  | Ok _, Some (PFixed, i), None => false
+  | _, _, None => true
+  | _, _, Some _ => false
+  end.
+
 (* error codes: 1 impl<>model (group)  2 impl not allowed by spec (group)  3 model not allowed by spec
    4 impl<>model (policy)  5 impl not allowed by spec (policy)  6 model not allowed by spec (policy)
-   7 oracle data incomplete *)
+   7 oracle data incomplete  11 impl<>model (fixed selection)  12 impl fixed selection not allowed by spec *)
 Definition check_case (c : obs_case) : list N :=
   let m := model_group c in
   let mp := new_policy (oc_policy c) in
@@ -120,7 +150,9 @@ Definition check_case (c : obs_case) : list N :=
    ++ (if policy_result_eqb (oc_impl_policy c) mp then [] else [4%N])
    ++ (if spec_policy_allows_b c (oc_impl_policy c) then [] else [5%N])
    ++ (if spec_policy_allows_b c mp then [] else [6%N])
-   ++ (if oracle_complete c then [] else [7%N]))%N.
+   ++ (if oracle_complete c then [] else [7%N])
+   ++ (if optres_eqb (oc_impl_fixed c) (model_fixed c) then [] else [11%N])
+   ++ (if spec_fixed_allows_b c then [] else [12%N])).
 
 Definition bucket (n : nat) : N := N.of_nat (Nat.min n 3).
 
